@@ -78,6 +78,14 @@ class Engine(BaseEngine):
                 out.append(self.case("int-ok" if v < (1 << 64) else "int-bad", ('{"%s":%d}' % (k, v)).encode()))
         for k in (65535, 65536, 10 ** 10):
             out.append(self.case("int-ok" if k <= 65535 else "int-bad", ('{"kinds":[1,%d]}' % k).encode()))
+        # values spread over every wrap-around window of a 64-bit (and 16-bit) accumulator
+        for j in range(60 if tier == "quick" else 2000):
+            v = rng.choice([rng.randrange(1 << 64, 10 ** 20), rng.randrange(10 ** 20, 10 ** 21), (1 << 64) * rng.randrange(1, 6) + rng.getrandbits(64),
+                            3 * 10 ** 19, 36893488147419103231, (1 << 64) - 1 - rng.randrange(10), rng.randrange(1 << 63, 1 << 64)])
+            k = rng.choice(["since", "until", "limit"])
+            out.append(self.case("int-ok" if v < (1 << 64) else "int-bad", ('{"%s":%d}' % (k, v)).encode()))
+            kv = rng.choice([rng.randrange(65536, 1 << 32), (1 << 16) * rng.randrange(1, 70000) + rng.randrange(65536), (1 << 64) + rng.randrange(65536), rng.randrange(65536)])
+            out.append(self.case("int-ok" if kv <= 65535 else "int-bad", ('{"kinds":[%d]}' % kv).encode()))
         return out
 
     def judge(self, gcls, line, model_out, impl_outs):
